@@ -429,7 +429,15 @@ class Exec:
             v = fresh_real(name)
         elif is_lab_sorted(old):
             v = fresh_lab(name)
-        elif old is None or isinstance(old, int) or is_int_sorted(old):
+        elif old is None:
+            # None on entry, possibly a value later (`last = None ... last = x`): an OPTIONAL integer; the invariant
+            # says when it is None.  (Ordering comparisons on it are accepted only where the path excludes None.)
+            v = fresh_int(name)
+            isnone = fresh_bool(name + "_is_none")
+            if fr.binders:
+                fr.aux = fr.aux + (v, isnone)
+            return Ite(isnone, None, v)
+        elif isinstance(old, int) or is_int_sorted(old):
             v = fresh_int(name)
         else:
             raise Unsupported(f"cannot havoc loop-carried {name} = {old!r}")
@@ -774,6 +782,15 @@ class Exec:
         if isinstance(op, (ast.In, ast.NotIn)):
             r = self.contains(b, a, fr)
             return r if isinstance(op, ast.In) else _not(r)
+        for side, x in (("a", a), ("b", b)):
+            if isinstance(x, Ite) and (x.a is None or x.b is None) and not (x.a is None and x.b is None):
+                # ordering against an optional value: Python raises TypeError on None, so the comparison is only
+                # within the subset where the path condition excludes the None branch
+                none_cond = x.c if x.a is None else z3.Not(x.c)
+                if fr is None or self.pv.feasible(list(fr.pc) + [none_cond]) is not False:
+                    raise Unsupported("ordering comparison of a value that may be None on this path")
+                val = x.b if x.a is None else x.a
+                return self.cmp(op, val, b, fr, node) if side == "a" else self.cmp(op, a, val, fr, node)
         if isinstance(a, Ite):
             return z3.If(a.c, zbool(self.cmp(op, a.a, b, fr)), zbool(self.cmp(op, a.b, b, fr)))
         if isinstance(b, Ite):
